@@ -26,7 +26,7 @@ fn main() {
     let seed: u64 = get("seed", "1").parse().unwrap();
     let out = get("out", "trace.ndjson");
     // a panic inside the code under test is recorded as data; keep stderr quiet
-    std::panic::set_hook(Box::new(|_| {}));
+    out::install_hook();
     let mut tr = out::Trace::create(&out);
     let mut rng = rng::Rng::new(seed ^ 0xC221_5EED);
     match domain.as_str() {
@@ -38,6 +38,7 @@ fn main() {
                 codec_random: num("codec", 100),
                 div_cases: num("div", 30),
                 split_cases: num("split", 100),
+                profile: get("profile", "all"),
             };
             let what = get("what", "lattice+random");
             for ty in get("types", "GF25519").split(',') {
